@@ -107,9 +107,6 @@ Qed.
 
 (* ------------------------------------------------------------------ *)
 (* float laws, proved on spec_float directly (valid or not), hence for every binary64 *)
-Definition opp_oc (c : option comparison) : option comparison :=
-  match c with Some c => Some (CompOpp c) | None => None end.
-
 Lemma SFcompare_swap x y : SFcompare y x = opp_oc (SFcompare x y).
 Proof.
   destruct x as [sx|sx| |sx mx ex], y as [sy|sy| |sy my ey]; cbn;
@@ -448,13 +445,83 @@ Proof.
 Qed.
 
 (* ------------------------------------------------------------------ *)
+(* cmp_int_real (truncation, tie by the fractional part, range guards) is the exact comparison
+   by cross-multiplication, for every i64 *)
+Section CmpIntReal.
+Local Open Scope Z_scope.
+Lemma cmp_tie i w (c : comparison) (x y : Z) :
+  (i < w -> x < y) -> (i > w -> x > y) -> (i = w -> (x ?= y) = c) ->
+  match i ?= w with Eq => c | c' => c' end = (x ?= y).
+Proof.
+  intros HL HG HE. destruct (Z.compare_spec i w) as [E|L|G].
+  - symmetry. apply HE, E.
+  - symmetry. apply Z.compare_lt_iff. apply HL, L.
+  - symmetry. apply Z.compare_gt_iff. apply Z.gt_lt, HG. lia.
+Qed.
+
+Lemma cmp_int_real_exact i x :
+  - two63 <= i < two63 -> cmp_int_real i x = Z_cmp_sf i x.
+Proof.
+  intros Hi.
+  destruct x as [s|s| |s m e]; try reflexivity.
+  - cbn. destruct (i ?= 0); reflexivity.
+  - unfold cmp_int_real, Z_cmp_sf, sf_trunc_frac.
+    assert (HT : 0 < two63) by reflexivity. set (T := two63) in *. clearbody T.
+    set (v := if s then Z.neg m else Z.pos m).
+    destruct e as [|p|p].
+    + destruct (Z.leb_spec T v) as [H1|H1].
+      { f_equal. symmetry. apply Z.compare_lt_iff. lia. }
+      destruct (Z.ltb_spec v (- T)) as [H2|H2]; cbn [orb].
+      { f_equal. symmetry. apply Z.compare_gt_iff. lia. }
+      rewrite andb_false_r. f_equal. destruct (i ?= v); reflexivity.
+    + set (w := v * 2 ^ Z.pos p).
+      destruct (Z.leb_spec T w) as [H1|H1].
+      { f_equal. symmetry. apply Z.compare_lt_iff. lia. }
+      destruct (Z.ltb_spec w (- T)) as [H2|H2]; cbn [orb].
+      { f_equal. symmetry. apply Z.compare_gt_iff. lia. }
+      rewrite andb_false_r. f_equal. destruct (i ?= w); reflexivity.
+    + assert (HP : 0 < 2 ^ Z.pos p) by (apply Z.pow_pos_nonneg; lia).
+      set (P := 2 ^ Z.pos p) in *.
+      pose proof (Z.div_mod (Z.pos m) P ltac:(lia)) as DM.
+      pose proof (Z.mod_pos_bound (Z.pos m) P HP) as RB.
+      set (q := Z.pos m / P) in *. set (r := Z.pos m mod P) in *.
+      assert (Hq : 0 <= q) by (apply Z.div_pos; lia).
+      destruct s; subst v.
+      * (* negative *)
+        change (Z.neg m) with (- Z.pos m). 
+        destruct (Z.leb_spec T (- q)) as [H1|H1]; [lia|].
+        destruct (Z.eqb_spec r 0) as [R0|R0].
+        -- destruct (Z.ltb_spec (- q) (- T)) as [H2|H2]; cbn [orb].
+           { f_equal. symmetry. apply Z.compare_gt_iff. nia. }
+           rewrite andb_false_r. f_equal. cbn [CompOpp]. apply cmp_tie; intros; try nia.
+           apply Z.compare_eq_iff. nia.
+        -- destruct (Z.ltb_spec (- q) (- T)) as [H2|H2]; cbn [orb].
+           { f_equal. symmetry. apply Z.compare_gt_iff. nia. }
+           destruct (Z.eqb_spec (- q) (- T)) as [H3|H3]; cbn [andb].
+           { f_equal. symmetry. apply Z.compare_gt_iff. nia. }
+           f_equal. cbn [CompOpp]. apply cmp_tie; intros; try nia.
+           apply Z.compare_gt_iff. nia.
+      * destruct (Z.leb_spec T q) as [H1|H1].
+        { f_equal. symmetry. apply Z.compare_lt_iff. nia. }
+        destruct (Z.ltb_spec q (- T)) as [H2|H2]; [lia|]. cbn [orb].
+        destruct (Z.eqb_spec q (- T)) as [H3|H3]; [lia|]. cbn [andb].
+        f_equal. destruct (Z.eqb_spec r 0) as [R0|R0]; cbn [CompOpp]; apply cmp_tie; intros; try nia.
+        -- apply Z.compare_eq_iff. nia.
+        -- apply Z.compare_lt_iff. nia.
+Qed.
+End CmpIntReal.
+
+(* ------------------------------------------------------------------ *)
 (* ordering *)
+Lemma opp_oc_invol c : opp_oc (opp_oc c) = c.
+Proof. destruct c as [[]|]; reflexivity. Qed.
+
 Theorem tcmp_eq_coherent : forall a b,
   teq a b = true -> tcmp a b <> Some Lt /\ tcmp a b <> Some Gt.
 Proof.
   intros a b E.
   assert (H : tcmp a b = None \/ tcmp a b = Some Eq).
-  { destruct a, b; try discriminate; unfold tcmp; cbn [is_real is_int is_obj orb andb to_sf to_i64].
+  { destruct a, b; try discriminate; cbn [tcmp is_real is_int is_obj orb andb to_sf to_i64].
     all: try (right; unfold obj_cmp; rewrite E; reflexivity).
     - left; reflexivity.
     - right. cbn in E. apply Z.eqb_eq in E. subst. rewrite Z.compare_refl. reflexivity.
@@ -468,15 +535,16 @@ Proof.
   rewrite (Nat.compare_antisym (tlen a) (tlen b)). destruct (tlen a ?= tlen b); reflexivity.
 Qed.
 
+Lemma Zcmp_swap x y : Some (Z.compare y x) = opp_oc (Some (Z.compare x y)).
+Proof. cbn [opp_oc]. rewrite (Z.compare_antisym x y). reflexivity. Qed.
+
 (* PartialOrd is anti-symmetric in the strong sense: swapping the operands mirrors the answer *)
 Theorem tcmp_swap : forall a b, tcmp b a = opp_oc (tcmp a b).
 Proof.
-  intros a b. unfold tcmp.
-  rewrite (orb_comm (is_real b)), (orb_comm (is_int b)), (andb_comm (is_obj b)).
-  destruct (is_real a || is_real b); [apply SFcompare_swap|].
-  destruct (is_int a || is_int b).
-  - cbn [opp_oc]. rewrite (Z.compare_antisym (to_i64 a) (to_i64 b)). reflexivity.
-  - destruct (is_obj a && is_obj b); [apply obj_cmp_swap|reflexivity].
+  intros a b.
+  destruct a, b; cbn [tcmp is_real is_int is_obj orb andb];
+    try reflexivity; try apply Zcmp_swap; try apply obj_cmp_swap;
+    try apply SFcompare_swap; try (symmetry; apply opp_oc_invol).
 Qed.
 
 Theorem tcmp_lt_asym : forall a b, tcmp a b = Some Lt -> tcmp b a = Some Gt.
@@ -486,7 +554,12 @@ Theorem tcmp_int_int : forall i j, tcmp (TInt i) (TInt j) = Some (Z.compare i j)
 Proof. reflexivity. Qed.
 
 Theorem tcmp_real_real : forall f g, tcmp (TReal f) (TReal g) = Bcompare 53 1024 f g.
-Proof. intros. unfold tcmp. cbn [is_real orb to_sf]. apply SFcompare_Bcompare. Qed.
+Proof. intros. cbn [tcmp]. apply SFcompare_Bcompare. Qed.
+
+(* Integer against Real: the exact comparison, for every i64 *)
+Theorem tcmp_int_real_exact : forall i f, (- two63 <= i < two63)%Z ->
+  tcmp (TInt i) (TReal f) = Z_cmp_sf i (sf f) /\ tcmp (TReal f) (TInt i) = opp_oc (Z_cmp_sf i (sf f)).
+Proof. intros i f Hi. cbn [tcmp to_i64]. rewrite cmp_int_real_exact by exact Hi. split; reflexivity. Qed.
 
 Theorem teq_real_real : forall f g,
   teq (TReal f) (TReal g) = match Bcompare 53 1024 f g with Some Eq => true | _ => false end.
